@@ -6,6 +6,9 @@ import EdpVerif.Impl.EqHash
 import EdpVerif.Lemmas.RoundTrip
 import EdpVerif.Lemmas.LocalSpan
 import EdpVerif.Lemmas.Convert
+import EdpVerif.Lemmas.DecSorted
+import EdpVerif.Lemmas.RoundTripLocal
+import EdpVerif.Lemmas.Reencode
 import EdpVerif.Generated.MiscC10
 import EdpVerif.Generated.Tags
 /-
@@ -192,6 +195,21 @@ theorem C10_conversions_identity (cs : List Conv) (t : Term) (h : btreeSorted t 
 example : applyConvs [.clone, .viaBorrowed, .move, .viaBorrowedClone] (.ref [97] 1 [2, 3] (some [4])) = .ref [97] 1 [2, 3] (some [4]) :=
   (C10_conversions_identity _ _ rfl).1
 
+/-- the `btreeSorted` guard is discharged for everything the decoder returns: a decoded term (any configuration, cache, input;
+`decode`, `decode_borrowed`, `decode_with_atom_cache`) whose map keys carry minimal big integers (`mapKeysMin`; on other keys
+the library's order is not transitive, C11's recorded finding) is unchanged by every sequence of clones, moves and
+conversions, and is written as the same bytes afterwards -/
+theorem C10_conversions_identity_decoded (x : Ext) (cfg : DecCfg) (bs : Bytes) (t : Term) (cs : List Conv)
+    (h : decodeWith x cfg bs = .ok t) (hk : mapKeysMin t = true) :
+    btreeSorted t = true ∧ applyConvs cs t = t ∧ encode (applyConvs cs t) = encode t := by
+  have hb : btreeSorted t = true :=
+    btreeSorted_of_mapsStrict t (mapsStrict_of_btInv t (decodeWith_btInv x cfg bs t h) hk)
+  exact ⟨hb, C10_conversions_identity cs t hb⟩
+
+/-- non-vacuity: a node-local pid as a map value, keys sent out of order -/
+example : mapKeysMin (.map [(.int 1, .pid { node := [97], id := 1, serial := 2, creation := 3, loc := some [9] }), (.int 2, .nil)]) = true := by
+  simp [mapKeysMin, mapKeysMinKV, keysWFo, WFo]
+
 /-- received, converted, put anywhere into a new term (the pid of a request used in the reply), encoded: the output contains
 exactly the bytes that were received — every input the decoder accepts as an identifier behind LOCAL_EXT, every sequence of
 conversions, every context, any atom cache on the way out -/
@@ -212,6 +230,36 @@ theorem C10_received_reemitted_anywhere (x : Ext) (cfg : DecCfg) (cache : List B
     rw [h2] at h4
     exact Except.ok.inj h4
   rw [hs]; exact ho
+
+/-! ### the decode side, nested: what was left open -/
+
+/-- decoding what the encoder wrote for a term with node-local identifiers AT ANY DEPTH (as map values, tuple elements, fun
+creators, …) returns the term's wire form with every identifier intact — same `loc` bytes — for every atom cache the encoder
+used and the decoder configuration that fits it, any fuel that covers the term, any depth, any trailing bytes, any behaviour
+of the external calls (Lemmas/RoundTripLocal.lean: the mutual induction of the round trip over `wfX`) -/
+theorem C10_nested_local_roundtrip (x : Ext) (cfg : DecCfg) (cache : List Bytes) (hc : cfgFor cache cfg)
+    (hlen : cache.length ≤ 256) (hb : cfg.borrowed = false) (t : Term) (bs r : Bytes) (fuel d : Nat)
+    (hw : wfX cache t) (hd : depX t + d ≤ MAX_NESTING_DEPTH) (he : enc cache t = .ok bs) (hf : tszX t ≤ fuel) :
+    dec x cfg fuel d (bs ++ r) = .ok (wire t, r) := dec_encX x cfg cache hc hlen hb t bs r fuel d hw hd he hf
+
+/-- and at the top level: `decode (encode t) = wire t`, then encoded again gives the same bytes (identifiers replayed
+verbatim) — for every such term whose maps have increasing keys and that has no empty improper list -/
+theorem C10_nested_local_reencode (x : Ext) (t t' : Term) (bs : Bytes) (hw : wfX [] t) (hd : depX t ≤ MAX_NESTING_DEPTH)
+    (hs : sortedKeys t = true) (hn : noEmptyImproper t = true) (he : encode t = .ok bs) (hdec : decode x bs = .ok t') :
+    t' = wire t ∧ encode t' = .ok bs := by
+  rw [decode_encode_local x t bs hw hd he] at hdec
+  cases hdec
+  refine ⟨rfl, ?_⟩
+  unfold encode at he ⊢
+  cases h : enc [] t with
+  | error e => simp [h] at he
+  | ok b => simp [h] at he; subst he; simp [enc_wire [] t b hs hn h]
+
+/-- non-vacuity: a node-local port inside a list inside a tuple satisfies the hypotheses -/
+example : wfX [] (.tuple [.list [.port [97] 1 2 (some [1, 2, 3, 4, 5, 6, 7, 8, 120, 119, 1, 97, 0, 0, 0, 0, 0, 0, 0, 1, 0, 0, 0, 2])]]) := by
+  simp only [wfX, wfXL, locOk, locOf]
+  refine ⟨by decide, ⟨by decide, ?_, trivial⟩, trivial⟩
+  exact ⟨[1, 2, 3, 4, 5, 6, 7, 8], [120, 119, 1, 97, 0, 0, 0, 0, 0, 0, 0, 1, 0, 0, 0, 2], rfl, rfl, by decide, rfl⟩
 
 /-! ### the source has the shape the model transcribes (regenerated every run) -/
 
